@@ -159,6 +159,10 @@ class DQSpec(FnSpec):
         def wait(ex, recv, a, k, n):
             # wait() = release (others run) + re-acquire; it must sit in `while not P: wait()` (checked syntactically)
             ex.oblige("wait-with-lock-held", LOCK in ex.held, kind="lock")
+            s0 = self.st(ex)
+            if not (a or k):
+                # W3 wait-predicate discipline: an untimed wait is entered only while P = (len > 0 or closed) is false
+                ex.oblige("wait-predicate[untimed wait only while the queue is empty and not closed]", z3.And(s0["q"].n == 0, z3.Not(s0["closed"])), kind="signalling")
             for nm, f in self.W.inv(self.st(ex)):
                 ex.oblige(f"wait-entry[I:{nm}]", f, kind="lock-invariant")
             self.havoc(ex)
